@@ -250,7 +250,7 @@ def reset_class_state(info_or_cls):
     if "_buffer" in c.__dict__:
         c._buffer.clear()
         c._CURRENT_BUFFER_SIZE = 0
-        c._buffered_collections = {}
+        c._buffered_collections.clear()  # in place: keep whatever mapping type the library uses
         ctx = c.__dict__.get("_buffer_context")
         if ctx is not None:
             ctx._count = 0
